@@ -139,7 +139,7 @@ func propC06(ch core.Chooser, st *core.Stats) error {
 			return fmt.Errorf("epoch %d: %v", e, err)
 		}
 		n := ch.Int("nops", 1, core.Scale(30, 80))
-		if err := s.runOps(n, []int{8, 4, 3, 2, 1, 1, 1}); err != nil {
+		if err := s.runOps(n, []int{8, 4, 3, 2, 1, 1, 1, 1}); err != nil {
 			return fmt.Errorf("epoch %d: %v", e, err)
 		}
 		logLen := s.fs.LogLen()
